@@ -17,6 +17,7 @@ import io
 import itertools
 import json
 import re
+import time
 from typing import Any, Optional
 
 import lark
@@ -724,14 +725,15 @@ def tie(ctx):
 
 
 # ---------------------------------------------------------------------------------------------
-def shrink_text(pred, text: str, budget: int = 40) -> str:
+def shrink_text(pred, text: str, budget: int = 40, seconds: float = 120) -> str:
     """Delta debugging on lines: drop contiguous chunks (halves, quarters, ... single lines) while pred stays true."""
     lines = text.splitlines(keepends=True)
     n = 0
+    t_end = time.time() + seconds
     size = max(1, len(lines) // 2)
-    while n < budget and lines:
+    while n < budget and lines and time.time() < t_end:
         i, progressed = 0, False
-        while i < len(lines) and n < budget:
+        while i < len(lines) and n < budget and time.time() < t_end:
             cand = lines[:i] + lines[i + size:]
             n += 1
             try:
@@ -768,6 +770,7 @@ CODE_WHAT = {1: 'H-tile fails: the lexeme values entering PostLex do not concate
 
 def run_cases(ctx, inputs, record=True):
     cases, metas = [], []
+    seen_sig: dict[str, int] = {}
     for rule, text, origin in inputs:
         large = origin.startswith('large')
         for acc in (False, True):
@@ -779,10 +782,11 @@ def run_cases(ctx, inputs, record=True):
             fails, spans = monitor(o)
             for sig, what in fails:
                 w = {'text': text, 'target': rule, 'auto_claim_comments': acc}
-                if sig != SIG_D12:
-                    budget = 30 if large else 40
+                seen_sig[sig] = seen_sig.get(sig, 0) + 1
+                if sig != SIG_D12 and seen_sig[sig] <= (1 if large else 3):
+                    budget = 20 if large else 40
                     small = shrink_text(lambda t: any(s == sig for s, _ in (monitor(observe(t, rule, acc))[0])), text,
-                                        budget=budget)
+                                        budget=budget, seconds=20 if large else 60)
                     w = {'text': small, 'target': rule, 'auto_claim_comments': acc}
                 ctx.monitor_failure(sig, what, w)
             if record:
@@ -848,7 +852,7 @@ def run_cases(ctx, inputs, record=True):
         def still(t):
             oo = observe(t, rule, acc)
             return oo is not None and coq_code_of(ctx, oo, monitor(oo)[1]) == code
-        small = shrink_text(still, text, budget=25) if code > 0 else text
+        small = shrink_text(still, text, budget=25, seconds=60) if code > 0 and len(text) < 20000 else text
         ctx.fail('corr', f'parse-correspondence:{code}', CODE_WHAT.get(code, 'model and implementation disagree'),
                  {'text': small, 'target': rule, 'auto_claim_comments': acc, 'code': code})
         reported += 1
